@@ -82,13 +82,13 @@ func dispatchTable(u *Universe) (map[string]string, map[string]string, []string,
 		switch {
 		case ai.Kind == "empty":
 			return "proceed"
-		case ai.Callee != nil && ai.Callee.Name() == "createDatatype":
+		case ai.Callee != nil && oldObjName(ai.Callee) == "createDatatype":
 			return "create"
-		case ai.Callee != nil && ai.Callee.Name() == "subscribeDatatype":
+		case ai.Callee != nil && oldObjName(ai.Callee) == "subscribeDatatype":
 			return "subscribe"
 		case ai.Callee != nil && isMethod(ai.Callee, pErrors, "ErrorCode", "New"):
 			return "error"
-		case ai.Callee != nil && ai.Callee.Name() == "initClientInfoWithDatatypeDoc":
+		case ai.Callee != nil && oldObjName(ai.Callee) == "initClientInfoWithDatatypeDoc":
 			return "proceed"
 		}
 		return "other:" + ai.Kind
@@ -183,6 +183,30 @@ func dispatchTable(u *Universe) (map[string]string, map[string]string, []string,
 		if st, ok := s.(*ast.IfStmt); ok {
 			walkIf(st)
 			break
+		}
+		// the same chain written as a tagless switch
+		if sw, ok := s.(*ast.SwitchStmt); ok && sw.Tag == nil {
+			var head, tail *ast.IfStmt
+			for _, c := range sw.Body.List {
+				cc := c.(*ast.CaseClause)
+				if len(cc.List) != 1 {
+					if cc.List == nil && tail != nil {
+						tail.Else = &ast.BlockStmt{List: cc.Body}
+					}
+					continue
+				}
+				n := &ast.IfStmt{If: cc.Pos(), Cond: cc.List[0], Body: &ast.BlockStmt{Lbrace: cc.Pos(), List: cc.Body}}
+				if head == nil {
+					head, tail = n, n
+				} else {
+					tail.Else = n
+					tail = n
+				}
+			}
+			if head != nil {
+				walkIf(head)
+				break
+			}
 		}
 	}
 	for _, c := range cases {
